@@ -2,6 +2,7 @@ import CollectionsC.Proofs.PListDerived
 import CollectionsC.Proofs.PSListDerived
 import CollectionsC.Properties.C15List
 import CollectionsC.Properties.C04PList
+import CollectionsC.Properties.C04PSList
 /-! # C15 (pointer level) — derived lists of CC_List / CC_SList on the raw links
 
 `C15List.lean` speaks about the derived-list builders (`sublist`, `copy_shallow`, `copy_deep`, `filter`) on the sequence-level
@@ -67,6 +68,78 @@ theorem dlist_derived_mirror {s : St} {l : Hdr} {cs : List Cell} {q : Stat × St
     PList.WF q.2.1.heap dd ∧ PList.WF q.2.1.heap l ∧ PList.bwd q.2.1.heap dd = (PList.fwd q.2.1.heap dd).reverse := by
   obtain ⟨nc, r, _⟩ := k.res dd hd
   exact ⟨⟨nc, r⟩, ⟨cs, k.src⟩, PList.mirror ⟨nc, r⟩⟩
+
+/-! ## "afterwards independent": source and derived list as a pair, any later history, destroying either one -/
+
+/-- **source and result form a pair** (doubly linked): both represented on the one heap, disjoint, all nodes older than the
+serial counter — the invariant from which every later history starts -/
+theorem dlist_derived_inv2 {s : St} {l : Hdr} {cs : List Cell} {q : Stat × St × Option Hdr × Mem} {c : Stat × Option Chain × Mem}
+    (k : PList.BuilderOk s l cs q c) (hb : ∀ y, y ∈ idsOf cs → y < s.fresh) (dd : Hdr) (hd : q.2.2.1 = some dd) :
+    ∃ nc, PList.Inv2 { st := q.2.1, l1 := l, l2 := dd } cs nc ∧ c.2.1 = some (ofList l.triple (dataOf nc)) ∧ dd.triple = l.triple := by
+  obtain ⟨nc, r, e, t, f⟩ := k.res dd hd
+  exact ⟨nc, ⟨⟨k.src, r, fun x hx hx2 => Nat.lt_irrefl _ (Nat.lt_of_lt_of_le (hb x hx) (f x hx2).1)⟩,
+    fun x hx => Nat.lt_of_lt_of_le (hb x hx) k.mono, fun x hx => (f x hx).2⟩, e, t⟩
+
+/-- **any later history on the pair (source, result)** — operations on either list, bulk copies and splices between them, in
+any order, any schedule — runs as the sequence-level history on the two canonical chains: the two lists behave as two
+independent lists from then on -/
+theorem dlist_derived_then_history (P : Spec.LSeq.Params) {s : St} {l : Hdr} {cs : List Cell} {q : Stat × St × Option Hdr × Mem}
+    {c : Stat × Option Chain × Mem} (k : PList.BuilderOk s l cs q c) (hb : ∀ y, y ∈ idsOf cs → y < s.fresh) (dd : Hdr)
+    (hd : q.2.2.1 = some dd) (ops : List PList.POp) (m : Mem) :
+    ∃ nc c1' c2', PList.Inv2 (PList.prun P { st := q.2.1, l1 := l, l2 := dd } ops m).2.1 c1' c2' ∧
+      DList.run P (ofList l.triple (dataOf cs), ofList dd.triple (dataOf nc)) (ops.map PList.POp.toOp) m =
+        ((PList.prun P { st := q.2.1, l1 := l, l2 := dd } ops m).1,
+         PList.absPair (PList.prun P { st := q.2.1, l1 := l, l2 := dd } ops m).2.1 c1' c2',
+         (PList.prun P { st := q.2.1, l1 := l, l2 := dd } ops m).2.2) := by
+  obtain ⟨nc, I, _, _⟩ := dlist_derived_inv2 k hb dd hd
+  obtain ⟨c1', c2', I', e⟩ := PList.prun_refines P ops _ cs nc m I
+  exact ⟨nc, c1', c2', I', e⟩
+
+/-- **destroying either one** leaves the other represented (untouched cell by cell), releases exactly the destroyed list's
+nodes (they are absent from the heap afterwards) and its header -/
+theorem dlist_derived_destroy {s : St} {l : Hdr} {cs : List Cell} {q : Stat × St × Option Hdr × Mem} {c : Stat × Option Chain × Mem}
+    (k : PList.BuilderOk s l cs q c) (hb : ∀ y, y ∈ idsOf cs → y < s.fresh) (dd : Hdr) (hd : q.2.2.1 = some dd) (m : Mem) :
+    (∃ nc, PList.Repr (PList.destroy q.2.1 dd m).2.1.heap l cs ∧ (∀ a, a ∈ idsOf nc → (PList.destroy q.2.1 dd m).2.1.heap a = none) ∧
+      (PList.destroy q.2.1 dd m).2.2 = Mem.freeN dd.triple (nc.length + 1) m ∧
+      PList.Repr (PList.destroy q.2.1 l m).2.1.heap dd nc ∧ (∀ a, a ∈ idsOf cs → (PList.destroy q.2.1 l m).2.1.heap a = none) ∧
+      (PList.destroy q.2.1 l m).2.2 = Mem.freeN l.triple (cs.length + 1) m) := by
+  obtain ⟨nc, I, _, _⟩ := dlist_derived_inv2 k hb dd hd
+  obtain ⟨_, a2, _, a4, a5⟩ := PList.destroy_spec q.2.1 dd nc m I.rep.r2 I.b2
+  obtain ⟨_, b2, _, b4, b5⟩ := PList.destroy_spec q.2.1 l cs m I.rep.r1 I.b1
+  exact ⟨nc, I.rep.r1.frame' (fun b hb' => a4 b (fun hm => I.rep.disj b hb' hm) (I.b1 b hb')), a5, a2,
+    I.rep.r2.frame' (fun b hb' => b4 b (fun hm => I.rep.disj b hm hb') (I.b2 b hb')), b5, b2⟩
+
+/-- singly linked: source and result form a pair -/
+theorem slist_derived_inv2 {s : St} {l : Hdr} {cs : List Cell} {q : Stat × St × Option Hdr × Mem} {c : Stat × Option Chain × Mem}
+    (k : PSList.BuilderOk s l cs q c) (hb : ∀ y, y ∈ idsOf cs → y < s.fresh) (dd : Hdr) (hd : q.2.2.1 = some dd) :
+    ∃ nc, PSList.SInv2 { st := q.2.1, l1 := l, l2 := dd } cs nc ∧ c.2.1 = some (ofList l.triple (dataOf nc)) ∧ dd.triple = l.triple := by
+  obtain ⟨nc, r, e, t, f⟩ := k.res dd hd
+  exact ⟨nc, ⟨⟨k.src, r, fun x hx hx2 => Nat.lt_irrefl _ (Nat.lt_of_lt_of_le (hb x hx) (f x hx2).1)⟩,
+    fun x hx => Nat.lt_of_lt_of_le (hb x hx) k.mono, fun x hx => (f x hx).2⟩, e, t⟩
+
+/-- singly linked: any later history on the pair (source, result) -/
+theorem slist_derived_then_history (P : Spec.LSeq.Params) {s : St} {l : Hdr} {cs : List Cell} {q : Stat × St × Option Hdr × Mem}
+    {c : Stat × Option Chain × Mem} (k : PSList.BuilderOk s l cs q c) (hb : ∀ y, y ∈ idsOf cs → y < s.fresh) (dd : Hdr)
+    (hd : q.2.2.1 = some dd) (ops : List PList.POp) (m : Mem) :
+    ∃ nc c1' c2', PSList.SInv2 (PSList.srun P { st := q.2.1, l1 := l, l2 := dd } ops m).2.1 c1' c2' ∧
+      SList.run P (ofList l.triple (dataOf cs), ofList dd.triple (dataOf nc)) (ops.map PList.POp.toOp) m =
+        ((PSList.srun P { st := q.2.1, l1 := l, l2 := dd } ops m).1,
+         PList.absPair (PSList.srun P { st := q.2.1, l1 := l, l2 := dd } ops m).2.1 c1' c2',
+         (PSList.srun P { st := q.2.1, l1 := l, l2 := dd } ops m).2.2) := by
+  obtain ⟨nc, I, _, _⟩ := slist_derived_inv2 k hb dd hd
+  obtain ⟨c1', c2', I', e⟩ := PSList.srun_refines P ops _ cs nc m I
+  exact ⟨nc, c1', c2', I', e⟩
+
+/-- singly linked: destroying either one -/
+theorem slist_derived_destroy {s : St} {l : Hdr} {cs : List Cell} {q : Stat × St × Option Hdr × Mem} {c : Stat × Option Chain × Mem}
+    (k : PSList.BuilderOk s l cs q c) (hb : ∀ y, y ∈ idsOf cs → y < s.fresh) (dd : Hdr) (hd : q.2.2.1 = some dd) (m : Mem) :
+    (∃ nc, PSList.SRepr (PSList.destroy q.2.1 dd m).2.1.heap l cs ∧ (∀ a, a ∈ idsOf nc → (PSList.destroy q.2.1 dd m).2.1.heap a = none) ∧
+      PSList.SRepr (PSList.destroy q.2.1 l m).2.1.heap dd nc ∧ (∀ a, a ∈ idsOf cs → (PSList.destroy q.2.1 l m).2.1.heap a = none)) := by
+  obtain ⟨nc, I, _, _⟩ := slist_derived_inv2 k hb dd hd
+  obtain ⟨_, _, _, a4, a5⟩ := PSList.destroy_spec q.2.1 dd nc m I.rep.r2 I.b2
+  obtain ⟨_, _, _, b4, b5⟩ := PSList.destroy_spec q.2.1 l cs m I.rep.r1 I.b1
+  exact ⟨nc, I.rep.r1.frame' (fun b hb' => a4 b (fun hm => I.rep.disj b hb' hm) (I.b1 b hb')), a5,
+    I.rep.r2.frame' (fun b hb' => b4 b (fun hm => I.rep.disj b hm hb') (I.b2 b hb')), b5⟩
 
 /-! ## Non-vacuity: a sublist and a filtered copy, the allocator granting everything; then a refusal in the middle -/
 example :
